@@ -80,7 +80,7 @@ def sortlen(repo, res, rule="SORTLEN"):
                 r = r["expr"]
             if r["k"] == "Path" and r["path"] == var:
                 ops.append(n)
-    ops.sort(key=lambda n: (n["l"], n["c"]))
+    ops.sort(key=A.pos)
     desc = []
     for n in ops:
         d = n["method"]
